@@ -11,7 +11,7 @@ func init() {
 		NotDecided: "correctness of the hash implementations; that Verify's re-scan after an algorithm switch reads exactly the bytes written; pre-existing corrupt files in a directory.",
 	})
 	registerProperty(&Property{ID: "C02", DesignRef: "DESIGN.md §4 C02, §3.3",
-		Rules:     []string{"TS-BOUNDREAD", "TS-ACK", "TS-SERVE", "TS-CONTENT-FIRST#push", "TS-REFUSE#push", "TS-REFUSE#upload", "SH-WORKLIST#complete", "SH-CONVERT-MARK#loader"},
+		Rules:     []string{"TS-BOUNDREAD", "TS-ACK", "TS-SERVE", "TS-CONTENT-FIRST#push", "TS-STORED-THEN-INDEXED#push", "TS-REFUSE#push", "TS-REFUSE#upload", "SH-WORKLIST#complete", "SH-CONVERT-MARK#loader"},
 		Technique: techPath,
 		Decided: "the manifest body is read through a bound above the limit and an oversized body is refused on every path to the insert (never stored cut); no 2xx / `return nil` is reachable when a commit call failed, was not tested or was discarded (abstract error values tracked per path); content is stored before the index entry naming it; served headers and body come from the recorded descriptor; the child descriptors of nested indexes are rebuilt completely on every index load (worklist discipline of the scan), so manifests acknowledged by digest stay addressable after a restart.",
 		NotDecided: "byte identity after arbitrary histories; range arithmetic (net/http.ServeContent); retention under GC policies (C05).",
@@ -29,9 +29,9 @@ func init() {
 		NotDecided: "well-formedness beyond what the JSON decoder and the reference checks establish; equality of the observable state before/after a refusal as a value.",
 	})
 	registerProperty(&Property{ID: "C05", DesignRef: "DESIGN.md §4 C05, §3.7, §3.2",
-		Rules:     []string{"SH-WORKLIST#skip-set", "SH-MARK-EXHAUSTIVE", "SH-SWEEP-GUARD#safety", "LK-TOKEN#exclusion", "LK-HOLD"},
+		Rules:     []string{"SH-WORKLIST#skip-set", "SH-MARK-EXHAUSTIVE", "SH-SWEEP-GUARD#safety", "LK-TOKEN#exclusion"},
 		Technique: "algorithm-shape rules on the typed AST and go/ssa (worklist discipline, field exhaustiveness, dominance of the sweep), lock/typestate analysis for the collector–handler exclusion",
-		Decided: "mark phase: skip-set discipline (a digest in several roles is still expanded), every descriptor field of image and index manifests and the referrers edge are followed; sweep: removal dominated by the not-marked edge, a modification-time test can skip it, dangling index entries pruned; exclusion protocol: token before wait before mutex in the collector, holds only added with the token or before publication, RepoGet/Done paired.",
+		Decided: "mark phase: skip-set discipline (a digest in several roles is still expanded), every descriptor field of image and index manifests and the referrers edge are followed; sweep: removal dominated by the not-marked edge, a modification-time test can skip it, dangling index entries pruned; exclusion protocol: token before wait before mutex in the collector, holds only added with the token or before publication (the pairing of RepoGet/Done in handlers is decided under C12).",
 		NotDecided: "the retention policy matrix; direction of comparisons; which blobs a given graph retains.",
 	})
 	registerProperty(&Property{ID: "C06", DesignRef: "DESIGN.md §4 C06, §3.7",
@@ -41,7 +41,7 @@ func init() {
 		NotDecided: "exactness of the sweep as a value; idempotence of a second pass; empty-repository removal semantics (its safety is under C10).",
 	})
 	registerProperty(&Property{ID: "C07", DesignRef: "DESIGN.md §4 C07, §3.3",
-		Rules:     []string{"TS-REFERRER-CALL", "TS-REFDEL", "SH-SIBLING-REF", "TS-PAGE", "TS-FILTER-HDR", "LK-RMW", "TS-HASHBYTES#referrer", "TS-CONTENT-FIRST#referrer"},
+		Rules:     []string{"TS-REFERRER-CALL", "TS-REFDEL", "SH-SIBLING-REF", "TS-PAGE", "TS-FILTER-HDR", "LK-RMW", "TS-HASHBYTES#referrer", "TS-CONTENT-FIRST#referrer", "TS-STORED-THEN-INDEXED#referrer"},
 		Technique: techPath + "; sibling agreement; lock analysis for the read-modify-write",
 		Decided: "the referrers update is called on every push path with a subject, for both manifest kinds, before the 201, and before the index removal on delete — only when the manifest itself is removed; all builders of a referrers entry fill the same fields (config fallback for images); pages respect the limit; filtered answers announce the filter on every path; the response's read-modify-write runs under one mutex.",
 		NotDecided: "exactness of the list contents after arbitrary histories; filter semantics; union of pages.",
@@ -104,7 +104,7 @@ func init() {
 		NotDecided: "symlinks inside the root; case-insensitive filesystems; per-repository isolation of in-memory maps as a value property.",
 	})
 	registerProperty(&Property{ID: "C17", DesignRef: "DESIGN.md §4 C17, §3.7",
-		Rules:     []string{"LK-SELF#ingest", "SH-IDEMPOTENT", "SH-WORKLIST#term", "SH-WORKLIST#complete", "SH-CONVERT-MARK", "TS-CONTENT-FIRST#ingest", "TS-SAVE#ingest"},
+		Rules:     []string{"LK-SELF#ingest", "SH-IDEMPOTENT", "SH-WORKLIST#term", "SH-WORKLIST#complete", "SH-CONVERT-MARK", "TS-CONTENT-FIRST#ingest", "TS-STORED-THEN-INDEXED#ingest", "TS-SAVE#ingest"},
 		Technique: "lock analysis on the conversion's call chain; shape and path rules on go/ssa and the typed AST",
 		Decided: "the conversion cannot block on a mutex it already holds; re-creating an already stored response is tolerated (repeatability after interruption); the conversion and child-scan loops terminate; the converted marker is set on every normal exit and the modified result leads to a save; a regenerated response is stored before it is indexed.",
 		NotDecided: "losslessness; grouping by actual subject; equality of the results of repeated conversions (value-level).",
